@@ -4,6 +4,7 @@ go 1.24.0
 
 require (
 	github.com/microsoft/yardl/tooling v0.0.0
+	gopkg.in/yaml.v3 v3.0.1
 	pgregory.net/rapid v1.3.0
 )
 
